@@ -100,6 +100,7 @@ type defSet map[*def]bool
 
 // GuardEngine caches units per function.
 type GuardEngine struct {
+	known map[string]bool // function keys present in any frozen reference (nil: unknown)
 	prog  *Program
 	units map[*FuncDecl]*Unit
 	lits  map[*ast.FuncLit]*Unit
@@ -1225,7 +1226,7 @@ func (g *GuardEngine) flatAtoms(fd *FuncDecl, onPath map[*FuncDecl]bool, depth i
 				continue
 			}
 			f = f.Origin()
-			if f.Exported() {
+			if f.Exported() && !g.isNewFunc(f) {
 				continue
 			}
 			hd := g.prog.Funcs[f]
@@ -1339,4 +1340,14 @@ func (u *Unit) enclosingIfs(n ast.Node) []*ast.IfStmt {
 		}
 	}
 	return out
+}
+
+// isNewFunc: an exported in-module function that no frozen reference knows was introduced after the
+// references were taken; it is treated like a private helper (inlined), so that extracting code into a
+// new exported function does not change the inventories of its callers.
+func (g *GuardEngine) isNewFunc(f *types.Func) bool {
+	if g.known == nil {
+		return false
+	}
+	return !g.known[FuncKey(f)]
 }
